@@ -217,7 +217,7 @@ def tlc(module, cfg, *, spec_dir=SPEC, workers=None, env=None, simulate=None,
     _tlc_seq += 1
     meta = os.path.join(CACHE, "tlc", "%d_%d_%s" % (os.getpid(), _tlc_seq, module))
     os.makedirs(meta, exist_ok=True)
-    java = ["java", "-XX:+UseParallelGC", "-Xmx" + xmx]
+    java = ["java", "-XX:+UseParallelGC", "-Xmx" + xmx, "-Xss256m"]  # deep recursive operators on long key sets
     if dfs:
         java.append("-Dtlc2.tool.queue.IStateQueue=StateDeque")
     cmd = java + ["-cp", TLA_CP, "tlc2.TLC", "-metadir", meta, "-noGenerateSpecTE",
